@@ -260,8 +260,19 @@ theorem qn_inj (ns a b : Text) : qn ns a = qn ns b ↔ a = b := by
   simp [qn]
 
 
+/-! ### declared members of a fault subclass -/
+theorem findTag_membersXml (t : Text) (ms : List (Text × Text)) (h : ∀ m ∈ ms, m.1 ≠ t) :
+    findTag t (membersXml ms) = none := by
+  induction ms with
+  | nil => simp [membersXml, findTag]
+  | cons m rest ih =>
+    rcases m with ⟨k, x⟩
+    have hk : k ≠ t := h (k, x) (by simp)
+    simp [membersXml, findTag, leafElem, Xml.tag, hk, ih (fun m hm => h m (by simp [hm]))]
+
 /-! ### SOAP 1.1 -/
-theorem xmlToFault11_faultToXml11 (F : Facts09) (hp : ':' ∉ F.env11Prefix) (f : FaultV) :
+theorem xmlToFault11_faultToXml11 (F : Facts09) (hp : ':' ∉ F.env11Prefix) (f : FaultV)
+    (hm : ∀ m ∈ f.members, m.1 ≠ T "detail") :
     xmlToFault11 (faultToXml11 F f) =
       some { code := f.code, str := f.str, actor := f.actor, detail := normTop11 f.detail, lang := T "en" } := by
   have e1 : (T "faultcode" = T "faultstring") = False := by decide
@@ -270,10 +281,11 @@ theorem xmlToFault11_faultToXml11 (F : Facts09) (hp : ':' ∉ F.env11Prefix) (f 
   have e4 : (T "faultstring" = T "faultactor") = False := by decide
   have e5 : (T "faultstring" = T "detail") = False := by decide
   have e6 : (T "faultactor" = T "detail") = False := by decide
-  rcases f with ⟨code, str, actor, detail, lang⟩
+  rcases f with ⟨code, str, actor, detail, lang, members⟩
+  have hmem := findTag_membersXml (T "detail") members hm
   rcases detail with _ | _ | ⟨kv, rest⟩ <;>
     simp [xmlToFault11, faultToXml11, Xml.tag, Xml.kids, Xml.text, childText, findTag, leafElem, detail11,
-      e1, e2, e3, e4, e5, e6, localPart_prefixed _ hp, normTop11, kidsToKvs_kvsToXml]
+      e1, e2, e3, e4, e5, e6, localPart_prefixed _ hp, normTop11, kidsToKvs_kvsToXml, hmem]
 
 theorem unwrapEnvelope_envelope (ns : Text) (x : Xml) (rest : List Xml) :
     unwrapEnvelope ns (envelope ns (x :: rest)) = some x := by
@@ -300,7 +312,8 @@ theorem head12_receiver : head12ToCode (T "Receiver") = T "Server" := by decide
 
 theorem xmlToFault12_faultToXml12 (F : Facts09) (hp : ':' ∉ F.env12Prefix)
     (hd : F.soap12Detail = .children) (f : FaultV) (first : Text) (rest : List Text)
-    (hs : splitOn '.' f.code = first :: rest) (hf : first = T "Client" ∨ first = T "Server") :
+    (hs : splitOn '.' f.code = first :: rest) (hf : first = T "Client" ∨ first = T "Server")
+    (hm : ∀ m ∈ f.members, m.1 ≠ tDetail12) :
     ∃ x, faultToXml12 F f = some x ∧
       xmlToFault12 x = some { code := f.code, str := f.str, actor := f.actor,
                               detail := f.detail.map normKvs, lang := f.lang } := by
@@ -312,18 +325,19 @@ theorem xmlToFault12_faultToXml12 (F : Facts09) (hp : ':' ∉ F.env12Prefix)
   have e5 : (tReason = tDetail12) = False := by decide
   have e6 : (tRole = tDetail12) = False := by decide
   have e8 : (T "Server" = T "Client") = False := by decide
-  rcases f with ⟨code, str, actor, detail, lang⟩
+  rcases f with ⟨code, str, actor, detail, lang, members⟩
+  have hmem := findTag_membersXml tDetail12 members hm
   simp only at hs hcode
   rcases hf with rfl | rfl <;> rcases detail with _ | kvs <;>
     simp [faultToXml12, hs, codeHead12, detail12, hd, xmlToFault12, Xml.tag, Xml.kids, Xml.text, Xml.attrs,
       childText, findTag, leafElem, valueText, e1, e2, e3, e4, e5, e6, e8, localPart_prefixed _ hp, subcodes,
-      subcodesIn_chain, head12_sender, head12_receiver, kidsToKvs_kvsToXml]
+      subcodesIn_chain, head12_sender, head12_receiver, kidsToKvs_kvsToXml, hmem]
   all_goals exact hcode
 
 
 /-! ### dict documents -/
 theorem docToFault_faultToDict (F : Facts09) (f : FaultV) :
-    docToFault (faultToDict F f) = some { f with lang := T "en" } := by
+    docToFault (faultToDict F f) = some { f with lang := T "en", members := [] } := by
   have e1 : (T "faultcode" = T "faultstring") = False := by decide
   have e2 : (T "faultcode" = T "faultactor") = False := by decide
   have e3 : (T "faultcode" = T "detail") = False := by decide
@@ -331,14 +345,14 @@ theorem docToFault_faultToDict (F : Facts09) (f : FaultV) :
   have e5 : (T "faultstring" = T "detail") = False := by decide
   have e6 : (T "faultactor" = T "detail") = False := by decide
   have e12 : (T "detail" = T "faultactor") = False := by decide
-  rcases f with ⟨code, str, actor, detail, lang⟩
+  rcases f with ⟨code, str, actor, detail, lang, members⟩
   cases hi : F.ignoreEmptyActor <;> rcases detail with _ | kvs <;> rcases actor with _ | ⟨a, as⟩ <;>
     simp [docToFault, faultToDict, lookup, docText, docDetail, hi, e1, e2, e3, e4, e5, e6, e12,
       docKvs_kvsToDoc]
 
 theorem docToFault_faultToList (f : FaultV) :
-    docToFault (faultToList f) = some { f with lang := T "en" } := by
-  rcases f with ⟨code, str, actor, detail, lang⟩
+    docToFault (faultToList f) = some { f with lang := T "en", members := [] } := by
+  rcases f with ⟨code, str, actor, detail, lang, members⟩
   rcases detail with _ | kvs <;> simp [docToFault, faultToList, docText, docDetail, docKvs_kvsToDoc]
 
 /-! ### HttpRpc -/
@@ -419,17 +433,18 @@ theorem wsgi_erase (F : Facts09) (t : Text) (h : F.faultString = .constant t) (p
   wsgiOn_erase F t h p p preset u
 
 /-! ### the spyne clients -/
-theorem client11_encode (F : Facts09) (f : FaultV) :
+theorem client11_encode (F : Facts09) (f : FaultV) (hm : ∀ m ∈ f.members, m.1 ≠ T "detail") :
     client11 (.xml (envelope ns11 [faultToXml11 F f])) =
       some { code := F.env11Prefix ++ ':' :: f.code, str := ctorString f.str, detail := normTop11 f.detail } := by
   have e1 : (T "faultcode" = T "faultstring") = False := by decide
   have e3 : (T "faultcode" = T "detail") = False := by decide
   have e5 : (T "faultstring" = T "detail") = False := by decide
   have e6 : (T "faultactor" = T "detail") = False := by decide
-  rcases f with ⟨code, str, actor, detail, lang⟩
+  rcases f with ⟨code, str, actor, detail, lang, members⟩
+  have hmem := findTag_membersXml (T "detail") members hm
   rcases detail with _ | _ | ⟨kv, rest⟩ <;>
     simp [client11, unwrapEnvelope_envelope, faultToXml11, Xml.tag, Xml.kids, Xml.text, findTag, leafElem, detail11,
-      e1, e3, e5, e6, normTop11, kidsToKvs_kvsToXml]
+      e1, e3, e5, e6, normTop11, kidsToKvs_kvsToXml, hmem]
 
 theorem joinWith_append_head (c : Char) (p q : Text) (rest : List Text) :
     joinWith c ((p ++ q) :: rest) = p ++ joinWith c (q :: rest) := by
@@ -461,7 +476,8 @@ theorem splitOn_free (c : Char) (s : Text) : ∀ x ∈ splitOn c s, c ∉ x := b
 
 theorem client12_encode (F : Facts09) (hn : F.client12Ns = .byNamespace)
     (hd : F.soap12Detail = .children) (f : FaultV) (first : Text) (rest : List Text)
-    (hs : splitOn '.' f.code = first :: rest) (hf : first = T "Client" ∨ first = T "Server") :
+    (hs : splitOn '.' f.code = first :: rest) (hf : first = T "Client" ∨ first = T "Server")
+    (hm : ∀ m ∈ f.members, m.1 ≠ tDetail12) :
     ∃ x, faultToXml12 F f = some x ∧
       client12 F (.xml (envelope ns12 [x])) =
         some { code := joinWith '.' ((F.env12Prefix ++ ':' :: (if first = T "Client" then T "Sender" else T "Receiver")) :: rest),
@@ -472,11 +488,12 @@ theorem client12_encode (F : Facts09) (hn : F.client12Ns = .byNamespace)
   have e5 : (tReason = tDetail12) = False := by decide
   have e6 : (tRole = tDetail12) = False := by decide
   have e8 : (T "Server" = T "Client") = False := by decide
-  rcases f with ⟨code, str, actor, detail, lang⟩
+  rcases f with ⟨code, str, actor, detail, lang, members⟩
+  have hmem := findTag_membersXml tDetail12 members hm
   simp only at hs
   rcases hf with rfl | rfl <;> rcases detail with _ | kvs <;>
     simp [faultToXml12, hs, codeHead12, detail12, hd, client12, hn, unwrapEnvelope_envelope, Xml.tag, Xml.kids, Xml.text,
-      findTag, leafElem, e1, e3, e5, e6, e8, subcodes, subcodesIn_chain, kidsToKvs_kvsToXml]
+      findTag, leafElem, e1, e3, e5, e6, e8, subcodes, subcodesIn_chain, kidsToKvs_kvsToXml, hmem]
 
 /-- the code a SOAP 1.2 client holds, read in spyne's vocabulary, is the raised code -/
 theorem code12ToSpyne_client (pfx : Text) (hp : ':' ∉ pfx) (code first : Text) (rest : List Text)
